@@ -77,7 +77,7 @@ class Harness:
 
     def run(self, lines):
         with ThreadPoolExecutor(max_workers=8) as ex:
-            return list(ex.map(self.one, lines))
+            return list(ex.map(rig.guarded(self.one, [self.squid]), lines))
 
     def close(self):
         self.squid.stop()
